@@ -44,13 +44,16 @@ def make_tree(case, rng):
     # two-character kinds built at run time: equal strings, distinct objects
     # (the names contain one another: "k" < "ka" < "kab")
     kind = (lambda i: "".join(["k", ["", "a", "ab"][(i * 7 + 1) % 3]])) if typed else None
+    # application-supplied node ids on some (or all) nodes of every other tree: node_id != id(node) from then on
+    nid_mode = rng.choice([None, None, "some", "all"])
+    nid = (lambda i: (5000 + i) if (nid_mode == "all" or i % 2 == 0) else None) if nid_mode else None
     if lab == "uniq":
-        nodes = gen.build(t, f, lambda i: f"n{i}", kind=kind)
+        nodes = gen.build(t, f, lambda i: f"n{i}", kind=kind, node_id=nid)
     elif lab == "clones":
         labs = gen.clone_labeling(rng, f, "abc") or [f"n{i}" for i in range(n)]
-        nodes = gen.build(t, f, lambda i: labs[i], kind=kind)
+        nodes = gen.build(t, f, lambda i: labs[i], kind=kind, node_id=nid)
     else:  # equal-comparing siblings, distinct explicit ids
-        nodes = gen.build(t, f, lambda i: "xy"[rng.random() < 0.25], kind=kind, data_id=lambda i: f"id{i}")
+        nodes = gen.build(t, f, lambda i: "xy"[rng.random() < 0.25], kind=kind, data_id=lambda i: f"id{i}", node_id=nid)
     return t, nodes
 
 
